@@ -922,6 +922,10 @@ func (x *Exec) havocModifies(st *State, env *Env, con *Contract, name string) {
 		inner := arrayElemSort(g.sort)
 		t := cur
 		for _, idx := range g.except {
+			if idx[0] == "0" {
+				// fields/mem/map of the nil reference: there is no such object, nothing is written
+				continue
+			}
 			fv := x.freshConst(n+".hv", inner)
 			t = sto(t, idx[0], fv)
 		}
